@@ -94,6 +94,15 @@ Theorem C08_short_circuit : forall (env : spec_env) (a : expr) (v : value),
   (spec_truthy v = Some true -> forall b, spec_eval env (EBin BOr a b) = Ok (VBool true)).
 Proof. exact C08_short_circuit_proof. Qed.
 
+(* in / not in against a list: true exactly when some element equals the left operand, whatever the length of the
+   list and wherever the element stands; not in is its negation *)
+Theorem C08_membership : forall (env : spec_env) (a : expr) (x : bytes) (va : value) (t : ltag) (xs : list value) (r : bool),
+  spec_eval env a = Ok va -> spec_eval env (EVar x) = Ok (VList t xs) -> spec_member va xs = Some r ->
+  spec_eval env (EBin BIn a (EVar x)) = Ok (VBool r) /\
+  spec_eval env (EBin BNotIn a (EVar x)) = Ok (VBool (negb r)) /\
+  (r = true <-> exists y, In y xs /\ spec_equal va y = Some true).
+Proof. exact C08_membership_proof. Qed.
+
 (* the conditional operator evaluates exactly one branch *)
 Theorem C08_conditional_one_branch : forall (env : spec_env) (c : expr) (v : value),
   spec_eval env c = Ok v ->
@@ -180,6 +189,7 @@ Print Assumptions C08_prec_table.
 Print Assumptions C08_left_assoc.
 Print Assumptions C08_precedence.
 Print Assumptions C08_short_circuit.
+Print Assumptions C08_membership.
 Print Assumptions C08_conditional_one_branch.
 Print Assumptions C08_integer_arithmetic.
 Print Assumptions C08_integer_range.
